@@ -216,7 +216,7 @@ func TestC14(t *testing.T) {
 		"scripts_in_bound":                 c.ScriptsTotal,
 		"alphabet":                         csymNames,
 		"disabled_policy_retried":          c.DisabledRetry,
-		"bound":                            fmt.Sprintf("RetryMax 0..%d (full 12-symbol alphabet up to %d, 9-symbol alphabet above), 3 kinds x Retry-After honoured or not x 4 min/max pairs, disabled policies, context live / cancelled on entry", clientMax, map[bool]int{false: 2, true: 4}[thorough]),
+		"bound":                            fmt.Sprintf("RetryMax 0..%d (full 12-symbol alphabet up to %d, 8-symbol alphabet above), 3 kinds x Retry-After honoured or not x 4 min/max pairs, disabled policies, context live / cancelled on entry", clientMax, map[bool]int{false: 2, true: 4}[thorough]),
 	}
 	rep.Assume = []string{
 		"third-party internals (retry-go's loop, go-retryablehttp's Do, net/http's client) run unmodified; their only uncontrolled choice — Go's random pick between two ready select cases — is owned by repeating the affected cases 64 times",
